@@ -258,6 +258,93 @@ components:
     Described: {type: string, description: a described string}
 `))
 
+	// one response component under a fixed code and as "default"
+	out = append(out, single("response-fixed-code-and-default", head30+`paths:
+  /a:
+    get:
+      operationId: a
+      responses:
+        "200": {$ref: '#/components/responses/Shared'}
+  /b:
+    get:
+      operationId: b
+      responses:
+        "200": {description: fine}
+        default: {$ref: '#/components/responses/Shared'}
+components:
+  responses:
+    Shared:
+      description: shared
+      content:
+        application/json:
+          schema: {type: object, properties: {msg: {type: string}}}
+`))
+	// one array schema as a required and as an optional property
+	out = append(out, single("array-schema-required-and-optional", head30+`paths:
+  /a:
+    get:
+      operationId: a
+      responses:
+        "200":
+          description: ok
+          content:
+            application/json:
+              schema:
+                type: object
+                required: [must]
+                properties:
+                  must: {$ref: '#/components/schemas/Arr'}
+                  may: {$ref: '#/components/schemas/Arr'}
+components:
+  schemas:
+    Arr: {type: array, items: {type: string}}
+`))
+	// two responses with different headers whose bodies refer to one schema
+	out = append(out, single("two-responses-with-headers-one-body-schema", head30+`paths:
+  /a:
+    get:
+      operationId: a
+      responses:
+        "200":
+          description: ok
+          headers: {X-A: {schema: {type: string}}}
+          content: {application/json: {schema: {$ref: '#/components/schemas/S'}}}
+  /b:
+    get:
+      operationId: b
+      responses:
+        "200":
+          description: ok
+          headers: {X-B: {schema: {type: integer}}}
+          content: {application/json: {schema: {$ref: '#/components/schemas/S'}}}
+components:
+  schemas:
+    S: {type: object, properties: {v: {type: string}}}
+`))
+	// one percent-encoded pointer used from the root document and from inside a referenced component
+	out = append(out, single("percent-pointer-top-level-and-nested", head30+`paths:
+  /a:
+    get:
+      operationId: a
+      responses:
+        "200":
+          description: ok
+          content: {application/json: {schema: {$ref: '#/x-defs/schemas/s%20t'}}}
+  /b:
+    get:
+      operationId: b
+      responses:
+        "200": {$ref: '#/components/responses/R'}
+components:
+  responses:
+    R:
+      description: ok
+      content: {application/json: {schema: {$ref: '#/x-defs/schemas/s%20t'}}}
+x-defs:
+  schemas:
+    "s t": {type: string, enum: [a, b]}
+`))
+
 	// ---- pointer escaping: name x context
 	names := []struct{ name, frag string }{
 		{"a/b", "a~1b"}, {"m~n", "m~0n"}, {"c d", "c%20d"}, {"c%d", "c%25d"}, {"p%20q", "p%2520q"}, {"e~1f", "e~01f"}, {"né", "n%C3%A9"}, {"plus+sign", "plus+sign"},
